@@ -283,13 +283,36 @@ def rule_defattr(model: Model, cls_q: str) -> list[Ob]:
     stored_anywhere = {a for k, a, *_ in w.events if k == "store"} | mutable
     class_level = {t.id for s in cnode.body if isinstance(s, ast.Assign) for t in s.targets if isinstance(t, ast.Name)}
     method_names = {f.name for f in methods}
+    # a private method is entered only where the class itself calls it: its reads carry the condition of those call sites
+    walkers = {}
+    for f in methods:
+        if f is not init and f.params() and f.params()[0] == "self":
+            mw = _Walker(cond)
+            mw.block(f.node.body, TRUE)
+            walkers[f.name] = (f, mw)
+    used_elsewhere = set()
+    for mod in model.modules.values():
+        for n in ast.walk(mod.tree):
+            if isinstance(n, ast.Attribute) and n.attr in walkers and not (isinstance(n.value, ast.Name) and n.value.id == "self"):
+                used_elsewhere.add(n.attr)
+    init_uses = {attr for kind, attr, *_ in w.events if kind != "store"}
+
+    def entry(name, seen=()):
+        if not (name.startswith("_") and not name.startswith("__")) or name in used_elsewhere or name in init_uses or name in seen:
+            return TRUE
+        sites = []
+        for cname, (cf, cw) in walkers.items():
+            for kind, attr, node, pc, in_loop in cw.events:
+                if kind != "store" and attr == name:
+                    sites.append(f_and(pc, entry(cname, seen + (name,))))
+        return f_or(*sites) if sites else TRUE
     for f in methods:
         if f is init:
             continue
         if not f.params() or f.params()[0] != "self":
             continue
-        mw = _Walker(cond)
-        mw.block(f.node.body, TRUE)
+        f, mw = walkers[f.name]
+        enter = entry(f.name)
         local_store = {}
         for kind, attr, node, pc, in_loop in mw.events:
             if kind == "store":
@@ -304,7 +327,7 @@ def rule_defattr(model: Model, cls_q: str) -> list[Ob]:
             if attr in local_store and min(local_store[attr]) <= node.lineno:
                 continue
             k = f"{f.short}:DEF-ATTR:self.{attr}@{norm(node)}:{_ordinal(f, node)}"
-            cex = counterexample(f_and(pc, completes), assigned.get(attr, FALSE))
+            cex = counterexample(f_and(pc, enter, completes), assigned.get(attr, FALSE))
             if cex is None:
                 obs.append(Ob("DEF-ATTR", k, OK, model.where(f, node), f"self.{attr}", "assigned by the constructor in every configuration that reaches this read",
                               nontrivial=assigned.get(attr) != TRUE))
